@@ -1078,6 +1078,39 @@ class SymBytes:
                 return i
         return -1
 
+    def _strip(self, chars, left, right):
+        if chars is None:
+            chars = b" \t\n\r\x0b\x0c"
+        if isinstance(chars, SymBytes):
+            if any(not isinstance(x, int) for x in chars.e):
+                raise Unsupported("bytes.strip with symbolic character set")
+            chars = bytes(chars.e)
+        cs = set(bytes(chars))
+        e = list(self.e)
+
+        def inset(x):
+            if isinstance(x, int):
+                return x in cs
+            t = byte_term(x)
+            return bool(SymBool(z3.Or(*[t == v for v in sorted(cs)]))) if cs else False
+        i, j = 0, len(e)
+        if left:
+            while i < j and inset(e[i]):
+                i += 1
+        if right:
+            while j > i and inset(e[j - 1]):
+                j -= 1
+        return SymBytes(e[i:j])
+
+    def lstrip(self, chars=None):
+        return self._strip(chars, True, False)
+
+    def rstrip(self, chars=None):
+        return self._strip(chars, False, True)
+
+    def strip(self, chars=None):
+        return self._strip(chars, True, True)
+
     def index(self, sub, start=0, end=None):
         i = self.find(sub, start, end)
         if i < 0:
